@@ -101,11 +101,23 @@ def generate(rng: Prng, tier: str) -> dict:
         tree = t2
     comments = [w.choice(COMMENTS) + (f" k{i}" if w.chance(0.5) else "") for i in range(w.choice([0, 0, 1, 2, 3, 4]))]
     lc = rng.stream("long_comment")
+    huge_header = False
     if lc.chance(0.04):
         # a header of tens of kilobytes made of multi-byte characters: wherever a reader cuts its input into blocks
         # (8192, 65536 bytes or characters, ...) the cut falls inside a character
         unit = lc.choice(["µ", "神经元", "é°", "a神", "𝛼β"])
         comments.insert(lc.below(len(comments) + 1), unit * (lc.choice([9000, 20000, 70000]) // len(unit.encode("utf-8")) + lc.below(7)))
+        if lc.chance(0.15):
+            # a header beyond one MiB: a reader that pulls its input in bulk with a size hint, or stops after some
+            # amount, loses what follows
+            comments[-1 if not comments else lc.below(len(comments))] = unit * (1_150_000 // len(unit))  # characters, not bytes
+            huge_header = True
+    nf = rng.stream("unicode_forms")
+    if nf.chance(0.06):
+        # text that is not in Unicode normal form C (a base letter + combining mark, the Angstrom / Ohm / Kelvin signs,
+        # a CJK compatibility ideograph): "the same text" means the same code points
+        comments.insert(nf.below(len(comments) + 1), nf.choice(["cafe\u0301 au lait", "10 \u212b resolution", "5 k\u2126 / 300 \u212a",
+                                                                "\uf900 compat", "A\u030a ngstro\u0308m", "\u1e9b\u0323 long s"]))
     gens = []
     for g in range(w.weighted([(1, 6), (2, 4)])):
         offs = [0, 1, 1, 1, 2, 7, 10**6, 2**31 - 1 - n]
@@ -146,6 +158,27 @@ def generate(rng: Prng, tier: str) -> dict:
             g_["aborted"] = {"how": ah.choice(["disk", "disk", "generator"]), "at": ah.choice([0, 1, 30, 64, 100, 257, 1000]),
                              "errno": ah.choice([28, 5]), "buffer": ah.choice([1, 16, 64, 8192]),
                              "id_offset": ah.choice([0, 1, 1, 5, 1000])}
+        fr = rng.stream(f"failed_read{g}")
+        if fr.chance(0.15):
+            # a read that FAILS part-way (a damaged copy of the text: junk after some good rows), issued right before
+            # the judged reads: nothing is demanded of it, and nothing of it may reach the reads that follow
+            g_["failed_read"] = {"after": fr.below(6), "junk": fr.choice(["oops not a row", "1 2 3", "7 3 1.0 x 0 1 1", "\x1a"]),
+                                 "kind": fr.choice(["string", "bytes", "path"])}
+        if huge_header:
+            # cost bound: byte-sized chunks add nothing at this scale
+            for rd in g_["reads"]:
+                st = rd.get("stream") or {}
+                if "chunks" in st:
+                    st["chunks"] = [max(c, 997) for c in st["chunks"]]
+                for k in ("buffer_size", "text_chunk"):
+                    if k in st:
+                        st[k] = max(st[k], 509)
+            st = g_["write"].get("wstream") or {}
+            if "chunks" in st:
+                st["chunks"] = [max(c, 997) for c in st["chunks"]]
+            for k in ("buffer_size", "text_chunk"):
+                if k in st:
+                    st[k] = max(st[k], 509)
         gens.append(g_)
     hist = rng.stream("history")
     return {"prop": PROP, "tree": tree, "comments": comments, "tsource": w.choice(SOURCES), "gens": gens,
@@ -406,6 +439,26 @@ def execute(program: dict) -> dict:
                 break
             first_tree = None
             first_bits = None
+            fr = gen.get("failed_read")
+            if fr:
+                lines_ = text.splitlines(keepends=True)
+                data_ix = [i for i, l in enumerate(lines_) if l.strip() and not l.lstrip().startswith("#")]
+                at = data_ix[min(fr["after"], len(data_ix) - 1)] + 1 if data_ix else len(lines_)
+                bad_text = "".join(lines_[:at]) + fr["junk"] + "\n" + "".join(lines_[at:])
+                try:
+                    if fr["kind"] == "string":
+                        Tree.from_swc(io.StringIO(bad_text))
+                    elif fr["kind"] == "bytes":
+                        Tree.from_swc(io.BytesIO(bad_text.encode("utf-8")))
+                    else:
+                        world.put("out/damaged-copy.swc", bad_text.encode("utf-8"))
+                        Tree.from_swc(world.path("out/damaged-copy.swc"))
+                    fo = "accepted"
+                except Exception as e:  # noqa: BLE001
+                    fo = type(e).__name__
+                world.take_warnings()
+                world.log(gi, "failed_read_first", fr["kind"], fo)
+                world.probe("c01.failed_read_right_before")
             for ri, rd in enumerate(gen["reads"]):
                 plan = StreamPlan.from_json(rd.get("stream"))
                 src_kind = rd["source"]
